@@ -58,11 +58,10 @@ impl DataItem for TimeItem {
             _ => return None
         };
 
-        let calculated_right = Duration::seconds(right.num_seconds_from_midnight() as i64);
-
-        if is_negative {
-            return Some(Rc::new(TimeItem(self.0 - calculated_right, self.1.clone())));
-        }
+        let calculated_right = match is_negative {
+            true => Duration::seconds(-(right.num_seconds_from_midnight() as i64)),
+            false => Duration::seconds(right.num_seconds_from_midnight() as i64)
+        };
         
         match operation_type {
             OperationType::Add => Some(Rc::new(TimeItem(self.0 + calculated_right, self.1.clone()))),
